@@ -192,30 +192,14 @@ func ruleSeries(c *Ctx) {
 		var loopNode ast.Node
 		ast.Inspect(fd.Body, func(n ast.Node) bool {
 			f, ok := n.(*ast.ForStmt)
-			if !ok || f.Init == nil || f.Cond == nil || f.Post == nil {
+			if !ok {
 				return true
 			}
-			init, ok1 := f.Init.(*ast.AssignStmt)
-			cond, ok2 := f.Cond.(*ast.BinaryExpr)
-			post, ok3 := f.Post.(*ast.AssignStmt)
-			if !ok1 || !ok2 || !ok3 || len(init.Rhs) != 1 {
+			cl, ok := p.countingLoop(f)
+			if !ok || cl.first != 3 || cl.step != 2 || cl.n < 1 {
 				return true
 			}
-			s0, oks := p.constInt64(init.Rhs[0])
-			lim, okl := p.constInt64(cond.Y)
-			step, okp := p.constInt64(post.Rhs[0])
-			if !oks || !okl || !okp || post.Tok != token.ADD_ASSIGN || s0 != 3 || step != 2 {
-				return true
-			}
-			switch cond.Op {
-			case token.LEQ:
-				last = lim
-			case token.LSS:
-				last = lim - 1
-			}
-			if last >= 3 && (last-3)%2 != 0 {
-				last--
-			}
+			last = cl.last
 			loopNode = f
 			return true
 		})
@@ -249,22 +233,48 @@ func ruleSeries(c *Ctx) {
 		}
 		var first int64 = -1
 		var top int64 = -1
+		// the series may live in a helper shared by epow and epowm1: look one call deep
+		bodies := []*ast.BlockStmt{fd.Body}
 		ast.Inspect(fd.Body, func(n ast.Node) bool {
-			f, ok := n.(*ast.ForStmt)
-			if !ok || f.Init == nil {
-				return true
-			}
-			init, ok := f.Init.(*ast.AssignStmt)
-			if !ok || len(init.Rhs) != 1 {
-				return true
-			}
-			if v, ok := p.constInt64(init.Rhs[0]); ok && first < 0 {
-				first = v
+			if call, ok := n.(*ast.CallExpr); ok {
+				if cfd := p.Funcs[p.calleeName(call)]; cfd != nil && cfd != fd && cfd.Body != nil && strings.HasPrefix(p.calleeName(call), "decomposed192.") {
+					hasLoop := false
+					ast.Inspect(cfd.Body, func(m ast.Node) bool {
+						if f, ok := m.(*ast.ForStmt); ok {
+							if cl, ok := p.countingLoop(f); ok && cl.step == -1 {
+								hasLoop = true
+							}
+						}
+						return true
+					})
+					if hasLoop {
+						bodies = append(bodies, cfd.Body)
+					}
+				}
 			}
 			return true
 		})
+		var lastK int64 = -1
+		for _, b := range bodies {
+			ast.Inspect(b, func(n ast.Node) bool {
+				f, ok := n.(*ast.ForStmt)
+				if !ok || first >= 0 {
+					return true
+				}
+				// Horner: k runs down from N-1 to 2
+				if cl, ok := p.countingLoop(f); ok && cl.step == -1 && cl.n > 0 {
+					first, lastK = cl.first, cl.last
+				}
+				return true
+			})
+		}
+		_ = lastK
 		// the leading quotient d/N
-		ast.Inspect(fd.Body, func(n ast.Node) bool {
+		var seriesBody ast.Node = fd.Body
+		if len(bodies) > 1 {
+			seriesBody = bodies[1]
+		}
+		ast.Inspect(seriesBody, func(n ast.Node) bool {
 			cl, ok := n.(*ast.CompositeLit)
 			if !ok || top >= 0 {
 				return true
@@ -365,13 +375,9 @@ func ruleSeries(c *Ctx) {
 					}
 				}
 			case *ast.ForStmt:
-				if x.Cond != nil {
-					if be, ok := x.Cond.(*ast.BinaryExpr); ok && be.Op == token.LSS {
-						if v, ok := p.constInt64(be.Y); ok && iters < 0 {
-							iters = v
-							loopNode = x
-						}
-					}
+				if cl, ok := p.countingLoop(x); ok && iters < 0 {
+					iters = cl.n
+					loopNode = x
 				}
 			}
 			return true
@@ -408,4 +414,89 @@ func ruleSeries(c *Ctx) {
 				fmt.Sprintf("Sqrt: %d Heron steps from a first guess that is off by up to %.3g (relative) do not reach the 1e-55 relative accuracy that the 1e-20 ulp margin needs; %d steps are required", iters, worst, need), "C17")
 		}
 	}
+}
+
+// countingLoop recognises `for i := a; i OP b; i STEP { body }` with constant
+// a, b and step and a body that does not assign i, and returns the sequence
+// of values i takes.
+type countLoop struct {
+	first, step, last, n int64
+}
+
+func (p *Prog) countingLoop(f *ast.ForStmt) (countLoop, bool) {
+	var out countLoop
+	if f.Init == nil || f.Cond == nil || f.Post == nil {
+		return out, false
+	}
+	init, ok := f.Init.(*ast.AssignStmt)
+	if !ok || len(init.Lhs) != 1 || len(init.Rhs) != 1 {
+		return out, false
+	}
+	iv := p.objOf(init.Lhs[0])
+	a, ok := p.constInt64(init.Rhs[0])
+	if iv == nil || !ok {
+		return out, false
+	}
+	x, op, kb, ok := p.normCmp(f.Cond)
+	if !ok || p.objOf(x) != iv || !kb.IsInt64() {
+		return out, false
+	}
+	k := kb.Int64()
+	var step int64
+	switch post := f.Post.(type) {
+	case *ast.IncDecStmt:
+		if p.objOf(post.X) != iv {
+			return out, false
+		}
+		step = 1
+		if post.Tok == token.DEC {
+			step = -1
+		}
+	case *ast.AssignStmt:
+		if len(post.Lhs) != 1 || len(post.Rhs) != 1 || p.objOf(post.Lhs[0]) != iv {
+			return out, false
+		}
+		v, ok := p.constInt64(post.Rhs[0])
+		if !ok || v == 0 {
+			return out, false
+		}
+		switch post.Tok {
+		case token.ADD_ASSIGN:
+			step = v
+		case token.SUB_ASSIGN:
+			step = -v
+		default:
+			return out, false
+		}
+	default:
+		return out, false
+	}
+	if p.assignsTo(f.Body, p.exprKey(init.Lhs[0])) {
+		return out, false
+	}
+	// normCmp forms: i > k, i <= k, i == k, i != k
+	cont := func(i int64) bool {
+		switch op {
+		case token.GTR:
+			return i > k
+		case token.LEQ:
+			return i <= k
+		case token.NEQ:
+			return i != k
+		case token.EQL:
+			return i == k
+		}
+		return false
+	}
+	out.first, out.step = a, step
+	i := a
+	for n := int64(0); n < 100000; n++ {
+		if !cont(i) {
+			out.n = n
+			out.last = i - step
+			return out, true
+		}
+		i += step
+	}
+	return out, false
 }
